@@ -92,7 +92,8 @@ func ProcessSingleDocGetRequest(ctx *fasthttp.RequestCtx, myid int64) {
 	ctx.Response.Header.Set("Content-Type", "application/json")
 	queryResult := query.GetQueryResponseJson(result, indexNameConverted, queryStart, sizeLimit, qid, &QueryAggregators{})
 
-	if queryResult.Hits.GetHits() == 0 {
+	// the total can count matches whose records did not make it into the hit list
+	if queryResult.Hits.GetHits() == 0 || len(queryResult.Hits.Hits) == 0 {
 		utils.WriteJsonResponse(ctx, response)
 		return
 	}
